@@ -168,7 +168,7 @@ def r10_2(ctx, fx):
     fn = ctx.fn(fx, A + "AddressStore::insert", "R10.2")
     if fn is None:
         return
-    grow = [c for c in fn.calls(r"HashMap::insert$") if is_store_map(c)]
+    grow = [c for c in fn.calls(r"HashMap::insert$") if is_store_map(c)] + [c for c in fn.calls(r"hash_map::(VacantEntry|Entry)(<.*>)?::(insert|or_insert|or_insert_with|insert_entry)$")]
     rem = [c for c in fn.calls(r"HashMap::remove$") if is_store_map(c)]
     ctx.anchor("R10.2", "AddressStore::insert: HashMap::insert / remove", min(len(grow), len(rem)), 1, cfg=fx.cfg)
     is_q = lambda f, o: any(l.dest[0] in slice_locals(f, o, strict=True) for l in f.calls(r"HashMap::len$") if is_store_map(l))
@@ -187,6 +187,23 @@ def r10_2(ctx, fx):
         # the evicted key is the minimum record's address
         rs = guards.rootstrs(fn, c.args[1])
         ctx.ob("R10.2", "AddressStore::insert/evicts-the-minimum-record", any(x.endswith("Iterator::min") for x in rs), site=fn.site(c.node), cfg=fx.cfg, detail="roots: %s" % sorted(rs)[:8])
+    # the at-capacity block (evict the minimum, or drop the new record) is entered only for an address that is not stored yet: a dial
+    # result for a known address must re-score it whatever the fill level, and must not cost another address its slot
+    absent = set()
+    for sw in fn.discr_switches():
+        if sw[2].endswith("hash_map::Entry"):
+            for lab in fn.variant_edges(sw, "Vacant"):
+                absent.add((sw[0], lab))
+    for c in fn.calls(r"HashMap::contains_key$"):
+        if is_store_map(c):
+            for sw_, t, f in fn.bool_tests(c.dest[0]):
+                absent.add((sw_, f))
+    ctx.anchor("R10.2", "AddressStore::insert: presence test of the address", len(absent), 1, cfg=fx.cfg)
+    r = fn.reach([fn.entry], cut=absent)
+    inside = [n_ for (sw_, lab) in full for n_, l in fn.succs(sw_) if l == lab]
+    ctx.ob("R10.2", "AddressStore::insert/at-capacity-block-only-for-an-address-not-yet-stored", bool(inside) and not any(n_ in r for n_ in inside),
+           site=fn.site(inside[0]) if inside else fn.site(fn.entry), cfg=fx.cfg,
+           detail="the `len >= max_capacity` block must be reachable only over the Vacant / not-contained edge")
     # `min()` means lowest score only if AddressRecord's ordering is the ordering of the scores, in that direction
     of = ctx.fn(fx, "<transport::manager::address::AddressRecord as std::cmp::Ord>::cmp", "R10.2")
     if of is not None:
